@@ -183,6 +183,14 @@ func Entries() []Entry {
 			x, err := xmp.ParseXmp(bufio.NewReaderSize(rs, 2048))
 			return "err=" + obs.Err(err) + "\n" + obs.XMP(x).String()
 		}},
+		{"xmp.ParseXmp/bufio4096", "xmp", func(rs *mon.RS) string {
+			x, err := xmp.ParseXmp(bufio.NewReaderSize(rs, 4096))
+			return "err=" + obs.Err(err) + "\n" + obs.XMP(x).String()
+		}},
+		{"xmp.ParseXmp/bufio16384", "xmp", func(rs *mon.RS) string {
+			x, err := xmp.ParseXmp(bufio.NewReaderSize(rs, 16384))
+			return "err=" + obs.Err(err) + "\n" + obs.XMP(x).String()
+		}},
 		{"imagetype.Scan", "", func(rs *mon.RS) string {
 			t, err := imagetype.Scan(rs)
 			return fmt.Sprintf("t=%d err=%s", t, obs.Err(err))
